@@ -125,7 +125,8 @@ int32_t pkcs1UnpadExt(const unsigned char *in,
 {
     const unsigned char *c, *end;
 
-    if (verifyUnpaddedLen && inlen < outlen + 10)
+    /* 00 <type> <at least 8 bytes of padding> 00 <value> */
+    if (verifyUnpaddedLen && inlen < outlen + 11)
     {
         psTraceCrypto("pkcs1Unpad failure\n");
         return PS_ARG_FAIL;
